@@ -11,7 +11,7 @@ import os, sys, json, tempfile, shutil, subprocess, time
 import vlib
 import walker_lib as wl
 
-THEOREMS = ['C17_reference_walk', 'C17_exactly_once', 'C17_parent_first', 'C17_no_descent', 'C17_no_descent_ancestors',
+THEOREMS = ['C17_reference_walk', 'C17_exactly_once', 'C17_parent_first', 'C17_no_descent', 'C17_no_descent_ancestors', 'C17_no_descent_unique',
             'C17_step_decreases', 'C17_terminates', 'C17_no_stuck', 'C17_end_of_stream', 'C17_some_run_finishes',
             'C17_error_surfaces', 'C17_no_spurious_error', 'C17_counter_invariant', 'C17_no_panic',
             'C17_admits_spec', 'C17_model_listing_admitted']
@@ -187,6 +187,8 @@ def run_all(run, cases, binary, jbin):
     pending = []
     try:
         for i, c in enumerate(cases):
+            if len(run.prop_failures) >= 3:      # enough to report; do not sit through more watchdog timeouts
+                break
             run_case(run, binary, c, tmp, i, pending)
         judge_batch(run, jbin, pending)
     finally:
